@@ -20,7 +20,14 @@ use crate::sys::bin_strict;
 pub enum Act {
     ReqC,
     ReqL,
+    /// spawn(child awaiting a shell request); join_handle.await; event
+    ReqJ,
+    /// one task awaiting select over two shell requests
+    ReqS,
     Respond(usize),
+    /// the shell drops the k-th outstanding one-shot request unresolved (hosts that hold typed
+    /// requests); on the Core host followed by one no-op event = "one further core call"
+    Drop(usize),
     Sub,
     Unsub,
     Item,
@@ -71,13 +78,29 @@ pub enum LtP {
 pub enum HostKind {
     Bridge,
     Direct,
+    /// typed `Core<CApp>`: the harness holds the typed requests and can drop them
+    Core,
+}
+
+#[derive(Clone, Copy, Debug, PartialEq, Eq, PartialOrd, Ord, Serialize)]
+pub enum OneKind {
+    /// Command-API request.then_send
+    Cmd,
+    /// legacy capability request
+    Legacy,
+    /// request awaited by a spawned child whose JoinHandle the parent task awaits
+    Join,
+    /// member of a select over two requests whose task is still waiting
+    Sel,
+    /// member of a select whose task has finished or gone; the shell still holds the request
+    SelOrphan,
 }
 
 /// The reference: logical state as a function of the history alone.
 #[derive(Clone, Debug, PartialEq, Eq, PartialOrd, Ord, Serialize)]
 pub struct Ref {
-    /// outstanding one-shots in issue order (true = legacy API)
-    pub oneshots: Vec<bool>,
+    /// outstanding one-shots in issue order
+    pub oneshots: Vec<OneKind>,
     pub sub: SubP,
     pub ct: CtP,
     pub lt: LtP,
@@ -90,11 +113,15 @@ pub struct Hist {
     pub notes: usize,
     /// clear() calls for timers that had already finished (each leaves an id behind: K4)
     pub stale_cleared: usize,
+    /// legacy-API requests the shell dropped
+    pub dropped_legacy: usize,
 }
 
 pub struct Bounds {
     pub max_oneshots: usize,
     pub sat: u8,
+    /// the typed Core host also drops legacy-API requests
+    pub drop_legacy: bool,
 }
 
 impl Ref {
@@ -118,15 +145,24 @@ impl Ref {
 
     pub fn enabled(&self, host: HostKind, b: &Bounds) -> Vec<Act> {
         let mut v = vec![];
-        let bridge = host == HostKind::Bridge;
+        let bridge = host != HostKind::Direct; // hosts with legacy capabilities
         if self.oneshots.len() < b.max_oneshots {
             v.push(Act::ReqC);
+            v.push(Act::ReqJ);
             if bridge {
                 v.push(Act::ReqL);
             }
         }
+        if self.oneshots.len() + 2 <= b.max_oneshots
+            && !self.oneshots.iter().any(|k| matches!(k, OneKind::Sel | OneKind::SelOrphan))
+        {
+            v.push(Act::ReqS);
+        }
         for k in 0..self.oneshots.len() {
             v.push(Act::Respond(k));
+            if host != HostKind::Bridge && (self.oneshots[k] != OneKind::Legacy || b.drop_legacy) {
+                v.push(Act::Drop(k));
+            }
         }
         match self.sub {
             SubP::None => v.push(Act::Sub),
@@ -175,12 +211,37 @@ impl Ref {
             }
         };
         match a {
-            Act::ReqC => self.oneshots.push(false),
-            Act::ReqL => self.oneshots.push(true),
-            Act::Respond(k) => {
-                self.oneshots.remove(k);
-                sat(&mut self.view.got);
+            Act::ReqC => self.oneshots.push(OneKind::Cmd),
+            Act::ReqL => self.oneshots.push(OneKind::Legacy),
+            Act::ReqJ => self.oneshots.push(OneKind::Join),
+            Act::ReqS => {
+                self.oneshots.push(OneKind::Sel);
+                self.oneshots.push(OneKind::Sel);
             }
+            Act::Respond(k) => match self.oneshots.remove(k) {
+                OneKind::Cmd | OneKind::Legacy => sat(&mut self.view.got),
+                OneKind::Join => {
+                    // the child's event, then the parent's
+                    sat(&mut self.view.got);
+                    sat(&mut self.view.got);
+                }
+                OneKind::Sel => {
+                    sat(&mut self.view.got);
+                    for o in self.oneshots.iter_mut() {
+                        if *o == OneKind::Sel {
+                            *o = OneKind::SelOrphan;
+                        }
+                    }
+                }
+                OneKind::SelOrphan => {}
+            },
+            Act::Drop(k) => match self.oneshots.remove(k) {
+                // the task is cancelled, nothing is delivered
+                OneKind::Cmd | OneKind::SelOrphan | OneKind::Sel => {}
+                OneKind::Legacy => h.dropped_legacy += 1,
+                // the child is cancelled, which concludes it: the parent carries on
+                OneKind::Join => sat(&mut self.view.got),
+            },
             Act::Sub => {
                 self.sub = SubP::Live;
                 self.view.subscribed = true;
@@ -287,6 +348,11 @@ impl Ref {
     /// Bounds in terms of outstanding work.
     fn expected(&self) -> Expected {
         let n = self.oneshots.len();
+        let count = |k: OneKind| self.oneshots.iter().filter(|o| **o == k).count();
+        let sel = (count(OneKind::Sel) > 0) as usize;
+        let one_exec = count(OneKind::Cmd) + count(OneKind::Legacy) + count(OneKind::Join) + sel;
+        let one_cmd = count(OneKind::Cmd) + 2 * count(OneKind::Join) + sel;
+        let one_tok = count(OneKind::Cmd) + count(OneKind::Legacy) + 2 * count(OneKind::Join) + sel;
         let lt_live = matches!(self.lt, LtP::Live | LtP::LiveCleared) as usize;
         let lt_req = lt_live + (self.lt == LtP::Orphan) as usize;
         let ct_reqs = match self.ct {
@@ -299,7 +365,9 @@ impl Ref {
         Expected {
             once: n + lt_req + ct_reqs,
             many: (self.sub != SubP::None) as usize,
-            tasks: n + sub_task + lt_live + ct_task,
+            tasks: one_exec + sub_task + lt_live + ct_task,
+            cmd_tasks: one_cmd + sub_task + ct_task,
+            tokens: one_tok + sub_task + lt_live + ct_task,
             cleared: (self.lt == LtP::LiveCleared) as usize,
             held_payload_tokens: n + (self.sub != SubP::None) as usize,
         }
@@ -310,8 +378,12 @@ impl Ref {
 struct Expected {
     once: usize,
     many: usize,
-    /// executor tasks (bridge host) = live command tasks (direct host) = tokens held by tasks
+    /// executor task slots (Bridge / Core host) = live commands (direct host)
     tasks: usize,
+    /// tasks inside live commands (direct host)
+    cmd_tasks: usize,
+    /// tokens held by live tasks
+    tokens: usize,
     cleared: usize,
     /// direct host only: COp payloads inside the typed requests the shell holds
     held_payload_tokens: usize,
@@ -429,6 +501,9 @@ impl BridgeHost {
         match a {
             Act::ReqC => self.event(CEvent::ReqC(Token::new())),
             Act::ReqL => self.event(CEvent::ReqL(Token::new())),
+            Act::ReqJ => self.event(CEvent::ReqJ(Token::new())),
+            Act::ReqS => self.event(CEvent::ReqS(Token::new())),
+            Act::Drop(_) => Err("the byte-level bridge cannot drop a request".into()),
             Act::Respond(k) => {
                 let id = self.oneshots.remove(k);
                 self.answer(id, &COut(7, Token::new()))
@@ -565,6 +640,14 @@ impl DirectHost {
     fn act(&mut self, a: Act) -> Result<(), String> {
         match a {
             Act::ReqC => self.event(CEvent::ReqC(Token::new())),
+            Act::ReqJ => self.event(CEvent::ReqJ(Token::new())),
+            Act::ReqS => self.event(CEvent::ReqS(Token::new())),
+            Act::Drop(k) => {
+                drop(self.oneshots.remove(k));
+                // the next poll of the commands (the way a test calls effects()/events())
+                self.settle();
+                Ok(())
+            }
             Act::Respond(k) => {
                 let mut r = self.oneshots.remove(k);
                 let res = r.resolve(COut(7, Token::new())).map_err(|e| e.to_string());
@@ -627,9 +710,159 @@ impl DirectHost {
     }
 }
 
+// ---------------------------------------------------------------------------------------------
+// host 3: typed Core<CApp>; the harness holds the typed requests and may drop them
+
+struct CoreHost {
+    core: Core<CApp>,
+    oneshots: Vec<Request<COp>>,
+    stream: Option<Request<COp>>,
+    ct_req: Option<Request<TimeRequest>>,
+    ct_clear: Option<Request<TimeRequest>>,
+    lt_req: Option<Request<TimeRequest>>,
+    cleared_base: usize,
+    unexpected: Vec<String>,
+}
+
+impl CoreHost {
+    fn new() -> Self {
+        CoreHost {
+            cleared_base: crux_time::verif_cleared_len(),
+            core: Core::new(),
+            oneshots: vec![],
+            stream: None,
+            ct_req: None,
+            ct_clear: None,
+            lt_req: None,
+            unexpected: vec![],
+        }
+    }
+
+    fn absorb(&mut self, effects: Vec<capp::Effect>) {
+        for e in effects {
+            match e {
+                capp::Effect::CTiny(r) => match r.operation {
+                    COp::Ask(_) => self.oneshots.push(r),
+                    COp::Watch(_) => {
+                        if self.stream.replace(r).is_some() {
+                            self.unexpected.push("second stream request".into());
+                        }
+                    }
+                },
+                capp::Effect::Render(_) => {}
+                capp::Effect::Time(r) => match r.operation {
+                    TimeRequest::NotifyAfter { duration, .. } => {
+                        let ms = std::time::Duration::from(duration).as_millis();
+                        let slot = if ms == 100 { &mut self.ct_req } else { &mut self.lt_req };
+                        if slot.replace(r).is_some() {
+                            self.unexpected.push("second timer request of one kind".into());
+                        }
+                    }
+                    TimeRequest::Clear { id } => {
+                        if self.ct_req.as_ref().map(DirectHost::timer_id) == Some(id) {
+                            self.ct_clear = Some(r);
+                        }
+                        // otherwise: the legacy clear notification
+                    }
+                    _ => self.unexpected.push("unexpected time request".into()),
+                },
+            }
+        }
+    }
+
+    fn event(&mut self, ev: CEvent) -> Result<(), String> {
+        let effects = self.core.process_event(ev);
+        self.absorb(effects);
+        Ok(())
+    }
+
+    /// `Core::resolve` debug_asserts success (K1, not this property's): the assertion is taken
+    /// as the error return it stands in front of.
+    fn resolve<Op: crux_core::capability::Operation>(
+        &mut self,
+        req: &mut Request<Op>,
+        out: Op::Output,
+    ) -> Result<(), String> {
+        let core = &self.core;
+        let r = mc_kit::catch(|| core.resolve(req, out));
+        match r {
+            Ok(Ok(effects)) => {
+                self.absorb(effects);
+                Ok(())
+            }
+            Ok(Err(e)) => Err(e.to_string()),
+            Err(p) if p.message.contains("resolve_result.is_ok()") => {
+                Err("resolve failed (debug assertion in Core::resolve)".into())
+            }
+            Err(p) => std::panic::panic_any(p.message),
+        }
+    }
+
+    fn act(&mut self, a: Act) -> Result<(), String> {
+        match a {
+            Act::ReqC => self.event(CEvent::ReqC(Token::new())),
+            Act::ReqL => self.event(CEvent::ReqL(Token::new())),
+            Act::ReqJ => self.event(CEvent::ReqJ(Token::new())),
+            Act::ReqS => self.event(CEvent::ReqS(Token::new())),
+            Act::Respond(k) => {
+                let mut r = self.oneshots.remove(k);
+                self.resolve(&mut r, COut(7, Token::new()))
+            }
+            Act::Drop(k) => {
+                drop(self.oneshots.remove(k));
+                // the drop is not a call: its consequences surface at the next one
+                self.event(CEvent::Noop)
+            }
+            Act::Sub => self.event(CEvent::Sub(Token::new())),
+            Act::Unsub => self.event(CEvent::Unsub),
+            Act::Item => {
+                let mut r = self.stream.take().ok_or("no stream request")?;
+                let res = self.resolve(&mut r, COut(9, Token::new()));
+                if res.is_ok() {
+                    self.stream = Some(r);
+                }
+                res
+            }
+            Act::Render => self.event(CEvent::Render),
+            Act::CTimerSet => self.event(CEvent::CTimerSet),
+            Act::CTimerClear => self.event(CEvent::CTimerClear),
+            Act::CTimerFire => {
+                let mut r = self.ct_req.take().ok_or("no timer request")?;
+                let id = DirectHost::timer_id(&r);
+                self.resolve(&mut r, TimeResponse::DurationElapsed { id })
+            }
+            Act::CTimerCleared => {
+                let mut r = self.ct_clear.take().ok_or("no clear request")?;
+                let id = DirectHost::timer_id(&r);
+                self.resolve(&mut r, TimeResponse::Cleared { id })
+            }
+            Act::LTimerSet => self.event(CEvent::LTimerSet),
+            Act::LTimerClear => self.event(CEvent::LTimerClear),
+            Act::LTimerFire => {
+                let mut r = self.lt_req.take().ok_or("no legacy timer request")?;
+                let id = DirectHost::timer_id(&r);
+                self.resolve(&mut r, TimeResponse::DurationElapsed { id })
+            }
+        }
+    }
+
+    fn gauges(&self) -> Gauges {
+        let (tasks, spawns, ready, effects, events) = self.core.verif_stats();
+        Gauges {
+            registry: (0, 0, 0),
+            tasks,
+            cmd_tasks: 0,
+            queues: (spawns, ready, effects, events),
+            cleared: crux_time::verif_cleared_len().saturating_sub(self.cleared_base),
+            tokens: live_tokens(),
+        }
+    }
+}
+
 enum Host {
     B(BridgeHost),
     D(DirectHost),
+    C(CoreHost),
 }
 
 // ---------------------------------------------------------------------------------------------
@@ -641,6 +874,8 @@ pub struct RunOut {
     pub gauges: Gauges,
     pub found: Vec<Found>,
     pub trace: Vec<String>,
+    /// stuck legacy tasks accepted under the listed finding (projected out of the key)
+    pub stuck_legacy: usize,
 }
 
 pub fn run_path(host: HostKind, path: &[Act], b: &Bounds, trace: bool) -> RunOut {
@@ -649,6 +884,7 @@ pub fn run_path(host: HostKind, path: &[Act], b: &Bounds, trace: bool) -> RunOut
     let mut h = match host {
         HostKind::Bridge => Host::B(BridgeHost::new()),
         HostKind::Direct => Host::D(DirectHost::new()),
+        HostKind::Core => Host::C(CoreHost::new()),
     };
     let mut rf = Ref::new();
     let mut hist = Hist::default();
@@ -660,6 +896,7 @@ pub fn run_path(host: HostKind, path: &[Act], b: &Bounds, trace: bool) -> RunOut
         let r = mc_kit::catch(|| match &mut h {
             Host::B(x) => x.act(*a),
             Host::D(x) => x.act(*a),
+            Host::C(x) => x.act(*a),
         });
         rf.step(*a, &mut hist, b);
         match r {
@@ -692,6 +929,7 @@ pub fn run_path(host: HostKind, path: &[Act], b: &Bounds, trace: bool) -> RunOut
         gauges = match &h {
             Host::B(x) => x.gauges(),
             Host::D(x) => x.gauges(),
+            Host::C(x) => x.gauges(),
         };
         gauges.tokens -= tokens_before;
         if trace {
@@ -730,6 +968,7 @@ pub fn run_path(host: HostKind, path: &[Act], b: &Bounds, trace: bool) -> RunOut
     let unexpected = match &mut h {
         Host::B(x) => std::mem::take(&mut x.unexpected),
         Host::D(x) => std::mem::take(&mut x.unexpected),
+        Host::C(x) => std::mem::take(&mut x.unexpected),
     };
     for u in unexpected {
         found.push(Found {
@@ -757,17 +996,37 @@ pub fn run_path(host: HostKind, path: &[Act], b: &Bounds, trace: bool) -> RunOut
     if trace {
         tr.push(format!("drop host: {left} tokens left"));
     }
+    let stuck = stuck_legacy(host, &rf, &hist, &gauges);
     RunOut {
         rf,
         hist,
         gauges,
         found,
         trace: tr,
+        stuck_legacy: stuck,
+    }
+}
+
+/// Legacy tasks whose request the shell dropped and that are still there (listed finding
+/// `legacy/dropped-request-task-never-released`): accepted only if EVERY dropped legacy request
+/// accounts for exactly one stuck executor slot - anything else is judged without allowance, so
+/// a different leak cannot hide in this dimension.
+fn stuck_legacy(host: HostKind, rf: &Ref, hist: &Hist, g: &Gauges) -> usize {
+    let e = rf.expected();
+    if host == HostKind::Core && hist.dropped_legacy > 0 && g.tasks == e.tasks + hist.dropped_legacy
+    {
+        hist.dropped_legacy
+    } else {
+        0
     }
 }
 
 fn check(host: HostKind, rf: &Ref, hist: &Hist, g: &Gauges, h: &Host) -> Vec<Found> {
-    let e = rf.expected();
+    let mut e = rf.expected();
+    let stuck = stuck_legacy(host, rf, hist, g);
+    // each stuck legacy task keeps its slot and the one token it captured
+    e.tasks += stuck;
+    e.tokens += stuck;
     let mut f = vec![];
     let mut over = |key: &str, what: String, projectable: bool| {
         f.push(Found {
@@ -782,6 +1041,13 @@ fn check(host: HostKind, rf: &Ref, hist: &Hist, g: &Gauges, h: &Host) -> Vec<Fou
         projectable: false,
     };
     let mut extra = vec![];
+    if stuck > 0 {
+        over(
+            "legacy/dropped-request-task-never-released",
+            format!("{stuck} executor slots (and the tokens their futures captured) belong to legacy-capability tasks whose {} requests the shell dropped unresolved; nothing wakes or evicts them", hist.dropped_legacy),
+            true,
+        );
+    }
     if host == HostKind::Bridge {
         let (never, once, many) = g.registry;
         if never > hist.notes {
@@ -815,6 +1081,8 @@ fn check(host: HostKind, rf: &Ref, hist: &Hist, g: &Gauges, h: &Host) -> Vec<Fou
         } else if many < e.many {
             extra.push(below("registry-many", many, e.many));
         }
+    }
+    if host != HostKind::Direct {
         let stale = hist.stale_cleared;
         if g.cleared > e.cleared {
             if g.cleared == e.cleared + stale {
@@ -836,7 +1104,7 @@ fn check(host: HostKind, rf: &Ref, hist: &Hist, g: &Gauges, h: &Host) -> Vec<Fou
     }
     if g.tasks > e.tasks {
         over(
-            if host == HostKind::Bridge {
+            if host != HostKind::Direct {
                 "executor/tasks-exceed-live-work"
             } else {
                 "command/not-done-without-live-work"
@@ -848,18 +1116,18 @@ fn check(host: HostKind, rf: &Ref, hist: &Hist, g: &Gauges, h: &Host) -> Vec<Fou
         extra.push(below("tasks", g.tasks, e.tasks));
     }
     if host == HostKind::Direct {
-        if g.cmd_tasks > e.tasks {
+        if g.cmd_tasks > e.cmd_tasks {
             over(
                 "command/tasks-exceed-live-work",
-                format!("commands hold {} tasks, {} are live", g.cmd_tasks, e.tasks),
+                format!("commands hold {} tasks, {} are live", g.cmd_tasks, e.cmd_tasks),
                 false,
             );
-        } else if g.cmd_tasks < e.tasks {
-            extra.push(below("command-tasks", g.cmd_tasks, e.tasks));
+        } else if g.cmd_tasks < e.cmd_tasks {
+            extra.push(below("command-tasks", g.cmd_tasks, e.cmd_tasks));
         }
     }
-    let want_tokens = e.tasks
-        + if host == HostKind::Direct {
+    let want_tokens = e.tokens
+        + if host != HostKind::Bridge {
             e.held_payload_tokens
         } else {
             0
@@ -883,6 +1151,7 @@ fn check(host: HostKind, rf: &Ref, hist: &Hist, g: &Gauges, h: &Host) -> Vec<Fou
     let view = match h {
         Host::B(x) => x.view(),
         Host::D(x) => Some(capp::view_of(&x.model)),
+        Host::C(x) => Some(x.core.view()),
     };
     if view.as_ref() != Some(&rf.view) {
         over(
@@ -909,6 +1178,8 @@ fn key_of(o: &RunOut) -> Key {
     // dimensions a listed finding makes unbounded, projected out (each is reported)
     g.registry.0 = 0;
     g.cleared = g.cleared.saturating_sub(o.hist.stale_cleared);
+    g.tasks = g.tasks.saturating_sub(o.stuck_legacy);
+    g.tokens -= o.stuck_legacy as i64;
     Key {
         rf: o.rf.clone(),
         gauges: g,
@@ -965,7 +1236,7 @@ fn explore(host: HostKind, b: &Bounds, cap: usize, limit_s: f64, rep: &Reporter)
                     key: f.key.clone(),
                     what: format!("{host:?} host, after {p:?}: {}", f.what),
                     replay: json!({"engine": "closure", "host": host, "path": p,
-                                   "bounds": {"max_oneshots": b.max_oneshots, "saturation": b.sat}}),
+                                   "bounds": {"max_oneshots": b.max_oneshots, "saturation": b.sat, "drop_legacy": b.drop_legacy}}),
                     size: p.len(),
                 });
                 cut |= !f.projectable;
@@ -1006,8 +1277,11 @@ pub fn run(tier: Tier, args: &[String]) -> i32 {
             .and_then(|s| s.parse().ok())
             .unwrap_or(tier.pick(2, 3)),
         sat: tier.pick(1, 2),
+        drop_legacy: !args.iter().any(|a| a == "--no-drop-legacy"),
     };
-    let cap = tier.pick(20_000, 400_000);
+    let cap = mc_kit::arg_value(args, "--cap")
+        .and_then(|s| s.parse().ok())
+        .unwrap_or(tier.pick(60_000, 1_000_000));
     // canary: a reference told that an aborted subscription is released immediately must be
     // contradicted by the implementation (lazy abort)
     {
@@ -1033,7 +1307,8 @@ pub fn run(tier: Tier, args: &[String]) -> i32 {
         }
     }
     let limit = tier.pick(45.0, 780.0);
-    let direct = explore(HostKind::Direct, &b, cap, limit * 0.25, &rep);
+    let direct = explore(HostKind::Direct, &b, cap, limit * 0.2, &rep);
+    let core = explore(HostKind::Core, &b, cap, (limit - rep.elapsed()) * 0.5, &rep);
     let bridge = explore(HostKind::Bridge, &b, cap, (limit - rep.elapsed()).max(5.0), &rep);
     let show = |c: &Closure, host: &str| {
         json!({
@@ -1049,27 +1324,29 @@ pub fn run(tier: Tier, args: &[String]) -> i32 {
             "states_by_subscription_phase": c.by_sub,
         })
     };
-    if bridge.states + direct.states < 4 {
+    if bridge.states < 2 || direct.states < 2 || core.states < 2 {
         mc_kit::machinery_error("C13: fewer than 2 non-trivial states per host");
     }
     let mut samples = bridge.samples.clone();
     samples.extend(direct.samples.clone());
-    let nontrivial = bridge.states + direct.states - 2;
+    samples.extend(core.samples.clone());
+    let nontrivial = bridge.states + direct.states + core.states - 3;
     let coverage = json!({
-        "states": bridge.states + direct.states,
-        "transitions": bridge.transitions + direct.transitions,
-        "traces_validated_against_impl": bridge.transitions + direct.transitions,
-        "evaluations": bridge.transitions + direct.transitions,
+        "states": bridge.states + direct.states + core.states,
+        "transitions": bridge.transitions + direct.transitions + core.transitions,
+        "traces_validated_against_impl": bridge.transitions + direct.transitions + core.transitions,
+        "evaluations": bridge.transitions + direct.transitions + core.transitions,
         "distinct_nontrivial": nontrivial,
         "rule": "a merged state other than the initial one (state key = reference logical state + view + gauges)",
-        "exhaustive": bridge.closed && direct.closed,
-        "closed": {"bridge_host": bridge.closed, "direct_host": direct.closed},
+        "exhaustive": bridge.closed && direct.closed && core.closed,
+        "closed": {"bridge_host": bridge.closed, "direct_host": direct.closed, "typed_core_host": core.closed},
         "state_cap": cap,
         "hosts": [show(&bridge, "bincode Bridge over Core (derive(Effect), legacy capabilities available)"),
+                  show(&core, "typed Core<CApp> (derive(Effect), legacy capabilities available); the harness holds the typed requests and can drop them"),
                   show(&direct, "harness-hosted Commands (#[effect] enum, Capabilities = ()); Command::verif_live_tasks readable")],
-        "action_alphabet": "ReqC (Command-API one-shot), ReqL (legacy one-shot), Respond(k) for every outstanding one-shot k, Sub, Unsub (AbortHandle kept in the model), Item (stream item; also after unsubscribe and after the task ended), Render, CTimerSet / CTimerClear (TimerHandle) / CTimerFire (answer NotifyAfter, also the orphaned one) / CTimerCleared (answer Clear), LTimerSet / LTimerClear (also after the timer finished) / LTimerFire; after EVERY explored path the host is dropped",
+        "action_alphabet": "ReqC (Command-API one-shot), ReqL (legacy one-shot), ReqJ (task: spawn(child awaiting a shell request); join_handle.await; event), ReqS (one task awaiting select over two shell requests), Respond(k) for every outstanding one-shot k (also the orphaned member of a finished select), Drop(k): the shell drops the k-th outstanding one-shot unresolved (Command-API requests on both hosts, legacy requests on the typed-Core host) (direct and typed-Core hosts; on the Core host followed by one no-op event = one further core call; the bridge cannot drop), Sub, Unsub (AbortHandle kept in the model), Item (stream item; also after unsubscribe and after the task ended), Render, CTimerSet / CTimerClear (TimerHandle) / CTimerFire (answer NotifyAfter, also the orphaned one) / CTimerCleared (answer Clear), LTimerSet / LTimerClear (also after the timer finished) / LTimerFire; after EVERY explored path the host is dropped",
         "app_bounds": {"max_outstanding_one_shots": b.max_oneshots, "live_subscriptions": 1, "command_api_timers": 1, "legacy_timers": 1, "model_counters_saturate_at": b.sat},
-        "state_key": "(reference: outstanding one-shots with their API in issue order, subscription phase, timer phases, expected view; gauges: registry once/many entries, executor task slots | live commands, sum of Command::verif_live_tasks, queued spawns/wake-ups/effects/events, cleared-timer-set size relative to the start of the path, live drop-tokens). Projected out because a listed finding makes them unbounded (each reported): `Never` registry entries (K3), cleared-set ids of timers cleared after they finished (K4)",
+        "state_key": "(reference: outstanding one-shots with their API in issue order, subscription phase, timer phases, expected view; gauges: registry once/many entries, executor task slots | live commands, sum of Command::verif_live_tasks, queued spawns/wake-ups/effects/events, cleared-timer-set size relative to the start of the path, live drop-tokens). Projected out because a listed finding makes them unbounded (each reported): `Never` registry entries (K3), cleared-set ids of timers cleared after they finished (K4), executor slots and tokens of legacy tasks whose request was dropped (accepted only when exactly one slot per dropped legacy request is stuck)",
         "oracle": "in every reachable state: registry once <= outstanding one-shot requests the shell holds, many <= subscriptions the shell has not been told are finished, never == 0; executor tasks / live commands / command tasks <= live pieces of work; cleared set <= cleared pending timers; live tokens <= tokens owned by live tasks (+ payloads of requests the harness holds); all queues empty after the call; after dropping the host 0 tokens; view == reference view; gauge BELOW the reference = reference error, reported under reference/*",
         "unbounded_history_argument": "the reachable set is closed under the action alphabet: every action from every reachable merged state leads to a reachable merged state, and every gauge in every such state is within its bound",
         "canary": "gauge sees the still-held task of an aborted, unpolled subscription; token counter counts",
@@ -1093,10 +1370,15 @@ pub fn replay_file(path: &str) -> i32 {
     let v: serde_json::Value = serde_json::from_str(&text).expect("replay is not JSON");
     let case = &v["case"];
     let p: Vec<Act> = serde_json::from_value(case["path"].clone()).expect("no path");
-    let host = if case["host"] == "Direct" { HostKind::Direct } else { HostKind::Bridge };
+    let host = match case["host"].as_str() {
+        Some("Direct") => HostKind::Direct,
+        Some("Core") => HostKind::Core,
+        _ => HostKind::Bridge,
+    };
     let b = Bounds {
         max_oneshots: case["bounds"]["max_oneshots"].as_u64().unwrap_or(2) as usize,
         sat: case["bounds"]["saturation"].as_u64().unwrap_or(1) as u8,
+        drop_legacy: case["bounds"]["drop_legacy"].as_bool().unwrap_or(true),
     };
     println!("replaying {p:?} on the {host:?} host");
     let out = run_path(host, &p, &b, true);
